@@ -579,8 +579,7 @@ func (fr *frame) execInstr(ins ssa.Instruction, st *State, env map[ssa.Value]Val
 	case *ssa.DebugRef:
 		return alive
 	case *ssa.Alloc:
-		ref := vc.define("new_"+x.Comment, sortInt, "(+ "+st.alloc+" 1)")
-		st.alloc = ref
+		ref := vc.newRef(st, "new_"+x.Comment)
 		et := x.Type().(*types.Pointer).Elem()
 		fr.zeroInit(st, ref, et)
 		env[x] = Val{t: ref}
@@ -683,22 +682,22 @@ func (fr *frame) execInstr(ins ssa.Instruction, st *State, env map[ssa.Value]Val
 		env[x] = fr.execTypeAssert(x, op(x.X), alive, safety)
 	case *ssa.MakeSlice:
 		ln := op(x.Len).t
-		ref := vc.define("mkslice", sortInt, "(+ "+st.alloc+" 1)")
-		st.alloc = ref
+		ref := vc.newRef(st, "mkslice")
 		st2 := x.Type().Underlying().(*types.Slice)
 		es := reg.sortOf(st2.Elem())
 		key := heapKeyElem(es)
 		hs := "(Array Int (Array Int " + es + "))"
 		h := vc.heapGet(st, key, hs)
+		vc.logWrite(key, ref)
 		vc.heapSet(st, key, hs, "(store "+h+" "+ref+" "+vc.zeroArray(es, reg.zero(st2.Elem()))+")")
 		safety("makeslice-len", x.Name(), x.Pos(), "(>= "+ln+" 0)")
 		env[x] = Val{t: "(mkSlice " + ref + " 0 " + ln + ")"}
 	case *ssa.MakeMap:
-		ref := vc.define("mkmap", sortInt, "(+ "+st.alloc+" 1)")
-		st.alloc = ref
+		ref := vc.newRef(st, "mkmap")
 		mt := x.Type().Underlying().(*types.Map)
 		pk, ps, _, _ := fr.mapHeaps(mt)
 		h := vc.heapGet(st, pk, ps)
+		vc.logWrite(pk, ref)
 		vc.heapSet(st, pk, ps, "(store "+h+" "+ref+" ((as const (Array "+reg.sortOf(mt.Key())+" Bool)) false))")
 		env[x] = Val{t: ref}
 	case *ssa.MapUpdate:
@@ -709,6 +708,8 @@ func (fr *frame) execInstr(ins ssa.Instruction, st *State, env map[ssa.Value]Val
 		pk, ps, vk, vs := fr.mapHeaps(mt)
 		safety("nil-map-write", x.Map.Name(), x.Pos(), "(not (= "+m.t+" 0))")
 		h := vc.heapGet(st, pk, ps)
+		vc.logWrite(pk, m.t)
+		vc.logWrite(vk, m.t)
 		vc.heapSet(st, pk, ps, "(store "+h+" "+m.t+" (store (select "+h+" "+m.t+") "+k.t+" true))")
 		hv := vc.heapGet(st, vk, vs)
 		vc.heapSet(st, vk, vs, "(store "+hv+" "+m.t+" (store (select "+hv+" "+m.t+") "+k.t+" "+v.t+"))")
@@ -781,6 +782,7 @@ func (fr *frame) zeroInit(st *State, ref string, et types.Type) {
 		key := heapKeyElem(es)
 		hs := "(Array Int (Array Int " + es + "))"
 		h := vc.heapGet(st, key, hs)
+		vc.logWrite(key, ref)
 		vc.heapSet(st, key, hs, "(store "+h+" "+ref+" "+vc.zeroArray(es, reg.zero(at.Elem()))+")")
 		return
 	}
@@ -843,6 +845,7 @@ func (fr *frame) storeThrough(st *State, p Val, et types.Type, v Val, alive stri
 		key := heapKeyElem(es)
 		hs := "(Array Int (Array Int " + es + "))"
 		h := vc.heapGet(st, key, hs)
+		vc.logWrite(key, p.t)
 		vc.heapSet(st, key, hs, "(store "+h+" "+p.t+" "+v.t+")")
 		return
 	}
@@ -931,7 +934,7 @@ func (fr *frame) execBinOp(x *ssa.BinOp, a, b Val, alive string, safety safetyFn
 		}
 	case token.MUL:
 		if isIntType(t) {
-			return Val{t: wrapInt("(* "+a.t+" "+b.t+")", x.Type())}
+			return Val{t: wrapInt(mulTerm(a.t, b.t), x.Type())}
 		}
 	case token.QUO:
 		if isIntType(t) {
@@ -1009,11 +1012,11 @@ func (fr *frame) execConvert(x *ssa.Convert, v Val, st *State, alive string, saf
 	case isStringType(from):
 		if sl, ok := to.Underlying().(*types.Slice); ok && vc.eng.types.sortOf(sl.Elem()) == sortInt {
 			// fresh byte slice holding the string's bytes
-			ref := vc.define("str2bytes", sortInt, "(+ "+st.alloc+" 1)")
-			st.alloc = ref
+			ref := vc.newRef(st, "str2bytes")
 			key := heapKeyElem(sortInt)
 			hs := "(Array Int (Array Int Int))"
 			h := vc.heapGet(st, key, hs)
+			vc.logWrite(key, ref)
 			vc.heapSet(st, key, hs, "(store "+h+" "+ref+" (str2bytes "+v.t+"))")
 			res := "(mkSlice " + ref + " 0 (str.len " + v.t + "))"
 			vc.assume("true", "(= (bytes2str (str2bytes "+v.t+") (str.len "+v.t+")) "+v.t+")")
